@@ -29,6 +29,7 @@ def run(ctx):
     ctx.each(r09d, ctx, repo, T)
     ctx.each(r09e, ctx, repo)
     ctx.each(r09f, ctx, repo)
+    ctx.each(c06.r06n, ctx, repo)  # the function of a scenario parameter is suspended on exactly the scenario window, evaluated everywhere else (also when no simulated time lies inside the window)
     ctx.each(c06.r06b, ctx, repo)  # before the scenario start a precomputed function parameter keeps its function values: the build-time evaluation is not switched off by the suspension window
     ctx.each(c06.r06g, ctx, repo)  # program overwrites and program-book series are stepped ('previous') series: before the first point they hold the first value
     ctx.rule("R01d", "update(ti) reads step ti-1 and writes step ti (see C01); shared here because a read at ti inside update() would let a flow act one step early")
